@@ -24,11 +24,12 @@ pub fn def() -> CheckDef {
         runs_quick: 250_000,
         runs_thorough: 5_000_000,
         rule: "seeded interleavings: history h1 on an instance, clone at a seeded point (mid-block for byte-level types), then operations on original and clone interleaved operation by operation by the scheduler; or two unrelated instances (different key/IV) interleaved; compared with sequential replays on fresh instances. All cloneable public types (12 block-mode types, 7 byte-stream aliases and cores, BufEncryptor/BufDecryptor); BeltCtr/BeltCtrCore (not Clone) only as unrelated instances. distinct = distinct (type, block size, cipher, width, clone point, interleaving pattern, op forms); non-trivial = >= 1 data op on each actor after the clone",
-        required_probes: &["clone_mid_block", "ctr_core_clone", "three_alternations", "unrelated_instances", "buf_clone", "belt_unrelated", "cts_clone", "second_clone", "clone_from"],
+        required_probes: &["clone_mid_block", "ctr_core_clone", "three_alternations", "unrelated_instances", "buf_clone", "belt_unrelated", "cts_clone", "second_clone", "clone_from", "unrelated_same_iv"],
         r#gen,
         exec,
         components: "real code: all stateful public types of the nine crates incl. their Clone impls (CtrCore's is hand-written); stub: block cipher in most runs, real ciphers in the rest; scheduler: the op list itself (call-granular interleaving is the whole space: every mutating method takes &mut self and the crates forbid unsafe); no reference model",
         assumptions: &["two instances can only interact through static/thread-local state, which is visible at call granularity on one thread", "sampling, not proof"],
+        nondet_is_violation: true,
     }
 }
 
@@ -58,6 +59,7 @@ fn r#gen(rng: &mut Rng, thorough: bool) -> Scn {
     s.set_num("fam", fam as u128);
     let unrelated = mode == "belt" || rng.chance(1, 4);
     s.set_num("unrelated", unrelated as u128);
+    s.set_num("rel", rng.below(3) as u128);
     let n1 = rng.usize(4);
     let n2 = 2 + rng.usize(if thorough { 9 } else { 6 });
     let extra = |rng: &mut Rng, s: &Scn| -> Op {
@@ -95,7 +97,7 @@ fn other_key(v: &[u8], x: u8) -> Vec<u8> {
 fn exec(scn: &Scn, ctx: &mut Ctx) -> Verdict {
     let w = scn.pol[0].max_width();
     let mut s2 = scn.clone();
-    s2.pol = vec![Policy::Fixed(w); 4];
+    s2.pol = vec![Policy::Fixed(w); 8];
     env_setup(&s2, false);
     sig_base(ctx, &s2);
     let fam = scn.num("fam") as u8;
@@ -108,7 +110,14 @@ fn exec(scn: &Scn, ctx: &mut Ctx) -> Verdict {
     let unrelated = scn.num("unrelated") == 1;
     ctx.sig.u((fam as u64) << 8 | unrelated as u64);
     let bs = scn.bs;
-    let (key2, iv2) = (other_key(&scn.key, 0x5a), other_key(&scn.iv, 0xa5));
+    // the second, unrelated instance: other key and IV; or the same IV under another key; or the
+    // same key with another IV (shared hidden state keyed by only one of the two would show)
+    let (key2, iv2) = match scn.num("rel") % 3 {
+        0 => (other_key(&scn.key, 0x5a), other_key(&scn.iv, 0xa5)),
+        1 => (other_key(&scn.key, 0x5a), scn.iv.clone()),
+        _ => (scn.key.clone(), other_key(&scn.iv, 0xa5)),
+    };
+    ctx.probe_if(unrelated && scn.num("rel") % 3 == 1, "unrelated_same_iv");
     let mk = |tag: u8, second: bool| -> Result<Inst, MkErr> {
         if second {
             Inst::make(fam, &scn.mode, bs, scn.cipher, &key2, &iv2, tag, 0)
